@@ -140,6 +140,17 @@ static void case_fn(uint64_t idx, void *ctx)
         uint32_t g = spifhash_jenkins32(blk + c.align, (spif_uint32_t) words, seed);
         if (g != e) FAIL("spifhash_jenkins32", "model:value", shape, "got 0x%08x, reference 0x%08x (%d words, alignment %d)", g, e, words, c.align);
         free(blk);
+        /* the key given as an expression on a pointer to words (a table of 32-bit values and an index): the words hashed are [skip, words) */
+        if (c.align == 0) for (int skip = 1; skip <= 2 && skip <= words; skip++) {
+            uint32_t *tbl = malloc((size_t) c.len); memcpy(tbl, ref, (size_t) c.len);
+            uint32_t e2 = ref_lookup2_words(w + skip, (uint32_t) (words - skip), seed);
+#pragma GCC diagnostic push
+#pragma GCC diagnostic ignored "-Wincompatible-pointer-types"
+            uint32_t g2 = spifhash_jenkins32(tbl + skip, (spif_uint32_t) words - skip, seed);
+#pragma GCC diagnostic pop
+            if (g2 != e2) FAIL("spifhash_jenkins32", "model:value", shape, "key expression 'table + %d' on a table of 32-bit words: got 0x%08x, reference over words %d..%d 0x%08x", skip, g2, skip, words - 1, e2);
+            free(tbl);
+        }
     }
     if (c.len) mc_nontrivial();
     mc_outcome(((uint64_t) exp[0] << 32) | exp[4]);
@@ -188,6 +199,45 @@ static void b4_case(uint64_t idx, void *ctx)
     mc_nontrivial();
     mc_outcome(((uint64_t) exp[0] << 32) | exp[4]);
 }
+/* keys of 2 GiB and more (lengths at which a byte count or a signed length wraps): one lazily mapped region, mostly untouched zero pages with marker bytes */
+static uint8_t *g_huge; static uint64_t g_huge_len;
+typedef struct { int fn; uint64_t len; } huge_t;          /* fn 0: jenkins32 (len in words), 1..5: the byte-wise hashes */
+static huge_t HUGE_CASES[32]; static int NHUGE;
+static const char *HNAME[6] = { "spifhash_jenkins32", "spifhash_jenkins", "spifhash_jenkinsLE", "spifhash_rotating", "spifhash_one_at_a_time", "spifhash_fnv" };
+static void huge_desc(uint64_t idx, void *ctx, char *b, size_t n) { (void) ctx; snprintf(b, n, "%s on a key of %llu %s (zero bytes with markers at both ends and around 2^31, 2^32), seed 0x%08x", HNAME[HUGE_CASES[idx].fn], (unsigned long long) HUGE_CASES[idx].len, HUGE_CASES[idx].fn ? "bytes" : "32-bit words", SEEDS[2]); }
+static void huge_case(uint64_t idx, void *ctx)
+{
+    huge_t h = HUGE_CASES[idx]; uint32_t seed = SEEDS[2], e, g; (void) ctx;
+    mc_set_shape(h.fn ? "byte-wise hash, key of 2 GiB or more" : "word-wise hash, key of 2 GiB or more");
+    switch (h.fn) {
+    case 0: e = ref_lookup2_words((const uint32_t *) g_huge, (uint32_t) h.len, seed); g = spifhash_jenkins32(g_huge, (spif_uint32_t) h.len, seed); break;
+    case 1: e = ref_lookup2(g_huge, (uint32_t) h.len, seed); g = spifhash_jenkins(g_huge, (spif_uint32_t) h.len, seed); break;
+    case 2: e = ref_lookup2(g_huge, (uint32_t) h.len, seed); g = spifhash_jenkinsLE(g_huge, (spif_uint32_t) h.len, seed); break;
+    case 3: e = ref_rotating(g_huge, (uint32_t) h.len, seed); g = spifhash_rotating(g_huge, (spif_uint32_t) h.len, seed); break;
+    case 4: e = ref_oaat(g_huge, (uint32_t) h.len, seed); g = spifhash_one_at_a_time(g_huge, (spif_uint32_t) h.len, seed); break;
+    default: e = ref_fnv1a(g_huge, (uint32_t) h.len, seed); g = spifhash_fnv(g_huge, (spif_uint32_t) h.len, seed); break;
+    }
+    if (g != e) FAIL(HNAME[h.fn], "model:value", "key of 2 GiB or more", "got 0x%08x, reference 0x%08x (%llu %s)", g, e, (unsigned long long) h.len, h.fn ? "bytes" : "words");
+    mc_nontrivial();
+    mc_outcome(((uint64_t) e << 8) | (uint64_t) h.fn);
+}
+static void huge_level(void)
+{
+    g_huge_len = (1ULL << 32) + 8192;
+    g_huge = mmap(NULL, g_huge_len, PROT_READ | PROT_WRITE, MAP_PRIVATE | MAP_ANONYMOUS | MAP_NORESERVE, -1, 0);
+    if (g_huge == MAP_FAILED) { mc_info("huge", "a region of 4 GiB could not be mapped: the 2 GiB keys are skipped"); return; }
+    static const uint64_t marks[] = { 0, 1ULL << 20, (1ULL << 31) - 16, 1ULL << 31, (1ULL << 31) + 16, (3ULL << 30) + 5, (1ULL << 32) - 32, (1ULL << 32) - 12, 1ULL << 32 };
+    for (unsigned i = 0; i < sizeof marks / sizeof *marks; i++) for (int k = 0; k < 12; k++) g_huge[marks[i] + (uint64_t) k] = (uint8_t) (0x81 + 7 * k + (int) i);
+    static const uint64_t wq[] = { (1ULL << 29) - 1, 1ULL << 29, (1ULL << 29) + 5 }, wt[] = { (1ULL << 30) - 1, (1ULL << 30) + 1 };
+    static const uint64_t bq[] = { (1ULL << 31) + 5 }, bt[] = { (1ULL << 31) - 1, 1ULL << 31, (1ULL << 32) - 1 };
+    for (unsigned i = 0; i < 3; i++) HUGE_CASES[NHUGE++] = (huge_t) { 0, wq[i] };
+    for (int f = 1; f <= 5; f++) HUGE_CASES[NHUGE++] = (huge_t) { f, bq[0] };
+    if (mc_thorough()) {
+        for (unsigned i = 0; i < 2; i++) HUGE_CASES[NHUGE++] = (huge_t) { 0, wt[i] };
+        for (int f = 1; f <= 5; f++) for (unsigned i = 0; i < 3; i++) HUGE_CASES[NHUGE++] = (huge_t) { f, bt[i] };
+    }
+    mc_e2_level("huge_keys", mc_thorough() ? 32 : 31, (uint64_t) NHUGE, huge_case, huge_desc, NULL);
+}
 /* all 1- and 2-byte keys */
 static void small_desc(uint64_t idx, void *ctx, char *b, size_t n) { (void) ctx; snprintf(b, n, idx < 256 ? "all hashes on the 1-byte key %02llx, 4 seeds" : "all hashes on the 2-byte key %04llx, 4 seeds", (unsigned long long) (idx < 256 ? idx : idx - 256)); }
 static void small_case(uint64_t idx, void *ctx)
@@ -214,7 +264,12 @@ int main(int argc, char **argv)
     g_page = sysconf(_SC_PAGESIZE);
     g_guard = mmap(NULL, (size_t) g_page * 3, PROT_READ | PROT_WRITE, MAP_PRIVATE | MAP_ANONYMOUS, -1, 0);
     mprotect(g_guard, (size_t) g_page, PROT_NONE); mprotect(g_guard + 2 * g_page, (size_t) g_page, PROT_NONE);
-    mc_info("alphabet", "length 0..%d x alignment 0..7 x seeds {0,1,0xf721b64d,0xffffffff} x patterns {all 00, all FF, counting, each single byte = 0x01 / 0x80}; jenkins32 on keys whose length is a multiple of 4 (every alignment); long keys of 4080..20004 bytes x 8 alignments; keys lying across an address that is a multiple of 4 GiB; %s",
+    if (mc_arg("only", NULL) && !strcmp(mc_arg("only", NULL), "huge")) {
+        mc_info("alphabet", "jenkins32 on keys of 2^29-1, 2^29, 2^29+5 words (thorough: also 2^30-1, 2^30+1) and the five byte-wise hashes on 2^31+5 bytes (thorough: also 2^31-1, 2^31, 2^32-1) against the references; the key is a lazily mapped region of zero bytes with marker bytes at both ends and around 2^31 and 2^32");
+        huge_level();
+        return mc_finish();
+    }
+    mc_info("alphabet", "length 0..%d x alignment 0..7 x seeds {0,1,0xf721b64d,0xffffffff} x patterns {all 00, all FF, counting, each single byte = 0x01 / 0x80}; jenkins32 on keys whose length is a multiple of 4 (every alignment) and on 'table + i' expressions over a table of words; long keys of 4080..20004 bytes x 8 alignments; keys lying across an address that is a multiple of 4 GiB; %s",
             MAXLEN, mc_thorough() ? "all 1- and 2-byte keys" : "all 1-byte keys");
     mc_e2_level("hash", MAXLEN, count_for(MAXLEN), case_fn, desc, NULL);
     { static const uintptr_t at[] = { 0x200000000000ULL, 0x300000000000ULL, 0x100100000000ULL, 0x500000000000ULL };
